@@ -1,5 +1,5 @@
 """property id -> check function(prop, tier) -> exit code, plus the metadata bin/mkmanifest writes into MANIFEST.json"""
-import frame, keytree, calltracer, codec, precomp, cancun, steptrace, instances, jpgas
+import frame, keytree, calltracer, codec, precomp, cancun, steptrace, instances, jpgas, fuzz
 
 FRAME_NOTE = ("Trusted: TLC 1.8; go-ethereum v1.12.0's StateDB as world state; the scenario compiler (harness/scn) that turns model "
               "instructions into byte code; join-point failures are injected at provider level (GetTxBondAspects error) except where real WASM "
@@ -123,6 +123,19 @@ META = {
                       "never more than given, and an Aspect running out of gas yields the EVM's out-of-gas error with nothing returned; the structure (which Aspects and "
                       "whether the callee ran, error class) must be the model's."),
                 note="Trusted: TLC; aspect-runtime's gas metering; what the caller really got back is derived from the caller's own gas before/after the CALL step, not from the exit callback."),
+    "C03": dict(fn=fuzz.check, engine="fuzz", design_ref="6 C03", replay="see the cmd field of {path} (codec/precompile vectors: .build/verifh codec|precompile -one {path})",
+                technique="trace validation with TLC (FuzzTrace.tla: no action for a panic, RestClosed after every result) on fuzzed executions + TLC-enumerated operand-class vectors",
+                text=("Arbitrary byte code including the journal opcodes, the Cancun additions and calls of every kind to 0x64-0x66 runs behind recover(); the trace "
+                      "specification has no action for a panic and requires the call-tree cursor to be nil and the next top-level call to be announced at depth 0 after every "
+                      "run; the operand classes (0, 31/32/33, 2^31, 2^63, 2^64-1, 2^64, 2^255, 2^256-1) of every journal opcode and every payload shape of the precompiles "
+                      "are enumerated by TLC and executed as well."),
+                note="Trusted: TLC. Exhaustive only over operand classes and small structures; volume beyond that is seeded generation: a crash needing a specific 256-bit constant outside the class boundaries can be missed."),
+    "C20": dict(fn=fuzz.check, engine="fuzz", design_ref="6 C20", replay="see the cmd field of {path}",
+                technique="trace validation with TLC (FuzzTrace.tla work rule per instruction) on fuzzed executions + TLC-enumerated length classes for journal opcodes",
+                text=("Every executed instruction is logged with the state reads/writes it performed and the gas it was charged; FuzzTrace.tla requires (reads+writes)*20 <= cost+40; "
+                      "length fields of 2^10..2^20 in storage (VRJNAL) and 1000..2^256-1 in memory arguments are enumerated from JournalCodec.tla: a flat-fee instruction must "
+                      "refuse them or stay within the bound. One known finding is recorded (VRJNAL on long stored strings)."),
+                note="Trusted: TLC; the counting StateDB wrapper. Orders of magnitude (bounded vs unbounded), not tight bounds; wall time and allocation are not measured directly."),
 }
 
 CHECKS = {p: m["fn"] for p, m in META.items()}
